@@ -1,6 +1,6 @@
 (* C10 Distributed execution equals central execution over the union of the partitions.
    Property theorems only; proofs in Dist.v and DistProofs.v. Partial: see the note. *)
-From Coq Require Import List String ZArith NArith Bool Permutation.
+From Coq Require Import List String ZArith NArith Bool Permutation Lia.
 From Verif Require Import Ast Generated Plan Dist DistProofs.
 Import ListNotations.
 From Verif Require Topk TopkProofs.
@@ -149,6 +149,31 @@ Theorem C10_distributed_count_equals_central :
 Proof. exact DistTree.distributed_count_equals_central. Qed.
 Print Assumptions C10_distributed_count_equals_central.
 
+(* topk / bottomk: every engine selects among its own series, the coordinator among the selected.
+   At every step at which no two samples of a group of the union have the same value, the distributed
+   plan returns the central plan's labelled samples (TopkDist.v: cg_selected_iff - a value has fewer
+   than k better ones among the partitions' selections iff it has among all - resting on
+   rank_count: exactly min(k, n) of n distinct values have fewer than k better ones). With ties the
+   reference's own choice is its heap's, and the set-level statement C10_topk_pushdown applies. *)
+From Verif Require TopkDist.
+Theorem C10_distributed_topk_equals_central :
+  forall cf w, (0 < Compose.c_shards cf)%nat -> (0 < Compose.c_batch cf)%nat -> (0 <= Compose.c_lookback cf)%Z ->
+  Base.wf_window w -> (Bin.noT < Base.w_start w)%Z ->
+  forall bottom k without grouping s, DistTree.sok s ->
+  forall p ps ts, DistTree.part_ok p -> Forall DistTree.part_ok ps -> In ts (Grid.grid w) ->
+  Trees.ties_free without grouping
+    (List.concat (map (fun q => DistTree.pref (Compose.c_lookback cf) s (fst q) (snd q) ts) (p :: ps))) = true ->
+  let tk := fun t => Trees.JTopk bottom k without grouping t in
+  let central := tk (DistTree.inst s (List.concat (map fst (p :: ps))) (List.concat (map snd (p :: ps)))) in
+  let distributed := tk (DistTree.jcoalesce (TopkDist.remote_topk bottom k without grouping s p)
+                                            (map (TopkDist.remote_topk bottom k without grouping s) ps)) in
+  exists outs_c outs_d,
+    Trees.jrun cf w central = inl outs_c /\ Trees.jrun cf w distributed = inl outs_d /\
+    Permutation (Bin.labelled Z (Trees.jseries central) (DistTree.step_of outs_c ts))
+                (Bin.labelled Z (Trees.jseries distributed) (DistTree.step_of outs_d ts)).
+Proof. exact TopkDist.distributed_topk_equals_central. Qed.
+Print Assumptions C10_distributed_topk_equals_central.
+
 (* Whole plans: Trees.jref is a congruence for "same labelled samples" (DistEquiv.jsim_requiv: joins,
    per-sample operators, aggregations, topk, coalesce, remote execution and step-invariant wrappers
    map permuted operand values to permuted results and fail together), so a plan in which, anywhere,
@@ -168,6 +193,27 @@ Theorem C10_distributed_plan_equals_central :
 Proof. exact DistEquiv.distributed_plan_equals_central. Qed.
 Print Assumptions C10_distributed_plan_equals_central.
 
+(* non-vacuity of the plan relation: sum by (b) (foo) - on (b) max by (b) (bar), both sides distributed
+   over two engines (one partition of bar is empty) *)
+Example C10_plan_example :
+  let f1 := ([[(0, 10); (1, 20); (2, 31)]]%N, [[Base.mkS 990 (Some 2)]]%Z) in
+  let f2 := ([[(0, 10); (1, 21); (2, 31)]]%N, [[Base.mkS 995 (Some 5)]]%Z) in
+  let b1 := ([[(0, 11); (2, 31)]]%N, [[Base.mkS 980 (Some 100)]]%Z) in
+  let b2 := (@nil Base.labels, @nil (list Base.sample)) in
+  let s := DistTree.SLeaf 0%Z None in
+  let jp := Trees.mkJP (fun x y => ((x - y)%Z, true)) (fun _ => 0%Z) true [2%N] [] Bin.OneToOne false true in
+  DistEquiv.jsim
+    (Trees.JJoin jp (Trees.JAgg (fun v => v) Z.add false [2%N] (DistTree.inst s (List.concat (map fst [f1; f2])) (List.concat (map snd [f1; f2]))))
+                    (Trees.JAgg (fun v => v) Z.max false [2%N] (DistTree.inst s (List.concat (map fst [b1; b2])) (List.concat (map snd [b1; b2])))))
+    (Trees.JJoin jp (Trees.JAgg (fun v => v) Z.add false [2%N]
+                       (DistTree.jcoalesce (DistTree.remote_of Z.add false [2%N] s f1) (map (DistTree.remote_of Z.add false [2%N] s) [f2])))
+                    (Trees.JAgg (fun v => v) Z.max false [2%N]
+                       (DistTree.jcoalesce (DistTree.remote_of Z.max false [2%N] s b1) (map (DistTree.remote_of Z.max false [2%N] s) [b2])))).
+Proof.
+  cbv zeta. apply DistEquiv.sim_join; apply DistEquiv.sim_agg; try (intros; lia); try reflexivity;
+    repeat (constructor; simpl); auto; unfold DistTree.part_ok; simpl; repeat constructor.
+Qed.
+
 (* non-vacuity: sum by (b) (foo) with foo's three series on two engines, two steps *)
 Example C10_distributed_example :
   let l1 := [[(0, 10); (1, 20); (2, 31)]; [(0, 10); (1, 22); (2, 32)]]%N in
@@ -183,9 +229,10 @@ Proof. cbv zeta. split; vm_compute; reflexivity. Qed.
 
 (* PARTIAL. Proved: the shape of what is sent to the partitions, the algebra of the
    distributive reductions for every partitioning, and end to end - through the remote
-   execution's read-back and the coalesce operator - per-series expressions and sum/max/min
-   aggregations of them over any number of engines, count over two, and whole plans built
-   from these by the other operators (C10_distributed_plan_equals_central). Not proved end
-   to end: the pushdown of group and topk/bottomk themselves (C10_topk_pushdown: sound for
-   tie-free data) and of count over more than two engines. Those are decided by the dist
+   execution's read-back and the coalesce operator - per-series expressions, sum/max/min and
+   count aggregations and (tie-free) topk/bottomk of them over any number of engines, and
+   whole plans built from the expression, sum/max/min and count forms by the other operators
+   (C10_distributed_plan_equals_central). Not proved end to end: the pushdown of group, topk
+   with ties (C10_topk_pushdown: a top-k selection, not necessarily the central engine's) and
+   plans that use a distributed topk below other operators. Those are decided by the dist
    oracle and the distributed tree correspondence of the check. *)
